@@ -27,6 +27,10 @@ import ExoModel.Lemmas.StorageDims
 import ExoModel.Lemmas.StorageReorderAlloc
 import ExoModel.Lemmas.StorageStage3
 import ExoModel.Lemmas.StorageReuse
+import ExoModel.Lemmas.StorageStage8
+import ExoModel.Lemmas.StorageStageWO
+import ExoModel.Lemmas.StorageStageAcc1
+import ExoModel.Lemmas.StorageUnroll
 
 set_option linter.unusedSectionVars false
 namespace Exo.C01S
@@ -849,5 +853,105 @@ theorem reuse_buffer_in_procedure_partial (k : Nat) (path : Rw.Path) (body body'
 theorem reuse_buffer_unsound_witnesses :
     ¬ BlockRefW Stg.ruLiveBefore Stg.ruLiveAfter ∧ ¬ BlockRefW Stg.ruScopeBefore Stg.ruScopeAfter :=
   ⟨Stg.reuse_buffer_live_unsound, Stg.reuse_buffer_scope_unsound⟩
+
+/-! ## Part 9 — `stage_mem` for dense buffers of any rank; write-only and `accum` variants;
+    `unroll_buffer`; a closed whole-procedure instance -/
+
+/-- **`stage_mem`, dense row-major `x` of ANY rank, window with interval and point coordinates, copy
+    nests of ANY depth: no geometry or copy-nest hypothesis left** (`Stg.stAcc_dense`,
+    `Stg.nest_copy` by recursion over the iterator list, `Stg.loadOK_dense`, `Stg.storeOK_dense`).
+    `Stg.NestSyn`: the iterators are distinct, as many as interval coordinates, and do not occur in the
+    (environment-only) window bounds.  `Stg.StageDenseSem`: in every well-scoped state in which the
+    block runs, `x` is bound to a dense view (offset ≥ 0) that is the only view into its buffer, the
+    window evaluates inside the extents with positive widths, and every access of the original run
+    to that buffer is a window cell (`AccIn`).  `_partial`: guard `Rw.stageGuard`, no safety guards. -/
+theorem stage_mem_dense_partial (x xs : Sym) (w : List WAcc) (n : Nat) (iters : List Sym)
+    (ss r : List Stmt)
+    (h : Rw.stageMemAll x xs w n iters false true true none none ss = some r)
+    (hg : Rw.stageGuard x xs w (ss.take n) = true) (hsyn : Stg.NestSyn w iters)
+    (hrest : ∀ y ∈ namesL (ss.drop n), y ≠ xs)
+    (hsem : Stg.StageDenseSem x xs w (ss.take n) ss) : BlockRefW ss r :=
+  Stg.stage_mem_dense_refW_partial x xs w n iters ss r h hg hsyn hrest hsem
+
+/-- read-only (copy-in only), dense, any rank: additionally no write/reduce event on `x`'s buffer -/
+theorem stage_mem_dense_readonly_partial (x xs : Sym) (w : List WAcc) (n : Nat)
+    (iters : List Sym) (ss r : List Stmt)
+    (h : Rw.stageMemAll x xs w n iters false true false none none ss = some r)
+    (hg : Rw.stageGuard x xs w (ss.take n) = true) (hsyn : Stg.NestSyn w iters)
+    (hrest : ∀ y ∈ namesL (ss.drop n), y ≠ xs)
+    (hsem : Stg.StageDenseSemRO x xs w (ss.take n) ss) : BlockRefW ss r :=
+  Stg.stage_mem_dense_readonly_refW_partial x xs w n iters ss r h hg hsyn hrest hsem
+
+/-- non-vacuity of the dense instance: rank 2, window `x[1, 1:3]` (point + interval) -/
+example := @Stg.StageEx.ex2_stage_fwd
+
+/-- **a closed whole-procedure instance, no hypothesis at all**:
+    `x : R[6]; for j in 0..6: x[j] = a[j]; for i in 0..4: y[i] = x[i+1]*2` with the second loop staged
+    on `x[1:5]` (the access hypothesis is proved symbolically for every state of the family,
+    `Stg.StageEx.ex_acc`) -/
+theorem stage_mem_whole_procedure (nm : String) (args : List FnArg) (preds : List Expr) :
+    EquivOn WellScoped (fun _ => False) (.mk nm args preds Stg.StageEx.exWhole)
+      (.mk nm args preds Stg.StageEx.exWholeStaged) :=
+  Stg.StageEx.ex_proc_equiv nm args preds
+
+/-- **write-only variant** (no copy-in): sound when (i) the block has no upward-exposed read of a
+    window cell (`ExposedIn`) and (ii) every window cell is written by the block (`Fp.writes`
+    covers the window) — `Stg.StageWOHyp.noexp` / `.full`; by determinacy on exposed reads the run
+    does not depend on the initial window contents (`Stg.StageWO.run_poison`) -/
+theorem stage_mem_writeonly_partial (x xs : Sym) (w : List WAcc) (n : Nat) (iters : List Sym)
+    (gl gs : Option Expr) (ss r : List Stmt)
+    (h : Rw.stageMemAll x xs w n iters false false true gl gs ss = some r)
+    (hg : Rw.stageGuard x xs w (ss.take n) = true) (hrest : ∀ y ∈ namesL (ss.drop n), y ≠ xs)
+    (hsem : Stg.StageWOSem x xs w (ss.take n) (Rw.stageStore x xs w iters false gs) ss) :
+    BlockRefW ss r :=
+  Stg.stage_mem_writeonly_refW_partial x xs w n iters gl gs ss r h hg hrest hsem
+
+/-- (i) is needed (finding N1): `x[0] = x[0] + 1.0` writes its whole window but reads it first -/
+theorem stage_mem_writeonly_needs_noexp :
+    ¬ BlockRefW Stg.StageEx.woExpBefore Stg.StageEx.woExpAfter :=
+  Stg.StageEx.stage_writeonly_exposed_unsound
+
+/-- **`accum = True`**: zero-fill, the block only reduces into `x` (`Stg.accGuard`), copy-out by `+=`.
+    For data algebras with associative addition (`DataLaws`) in which the literal `0.0` is a right
+    zero (`Stg.RightZero`: not a law of `DataLaws`, hence an explicit hypothesis inside
+    `Stg.BlockRefWL`) -/
+theorem stage_mem_accum_partial (x xs : Sym) (w : List WAcc) (n : Nat) (iters : List Sym)
+    (gl gs : Option Expr) (ss r : List Stmt)
+    (h : Rw.stageMemAll x xs w n iters true true true gl gs ss = some r)
+    (hg : Stg.accGuard x xs w (ss.take n) = true) (hrest : ∀ y ∈ namesL (ss.drop n), y ≠ xs)
+    (hsem : Stg.AccSem x xs w (ss.take n) (Rw.stageLoad x xs w iters true gl)
+      (Rw.stageStore x xs w iters true gs) ss) :
+    Stg.BlockRefWL ss r :=
+  Stg.stage_mem_accum_refWL_partial x xs w n iters gl gs ss r h hg hrest hsem
+
+example := @Stg.StageEx.wox_stage_fwd
+example := @Stg.StageEx.acc_stage_fwd
+
+/-- **`unroll_buffer`** (`DoUnrollBuffer`, shape `Rw.unrollBuffer d names`): any dimension `d`, any
+    number of used literal indices, calls allowed; relation with a RANGE of special buffers
+    (`Stg.Unroll.HRel`), unroll mode `Stg.Unroll.execL_unroll`.  `_partial`: guard `Rw.unrollOkL`
+    (no window expression of `x`, no `stride` — `unroll_buffer_stride_unsound`, finding S3 —, not a
+    call argument), extents `envOnly`. -/
+theorem unroll_buffer_partial (x : Sym) (d : Nat) (sh : List Expr) (order : List Nat)
+    (n0 : Sym) (nt : List Sym) (rest : List Stmt)
+    (henv : ∀ e ∈ sh, e.envOnly = true) (hlen : (n0 :: nt).length = order.length)
+    (hnd : (n0 :: nt).Nodup) (hxn : x ∉ n0 :: nt)
+    (hg : Rw.unrollOkL x d order rest = true)
+    (hnew : ∀ y ∈ namesEs sh ++ namesL rest, y ∉ n0 :: nt) :
+    BlockRefW (.alloc x sh :: rest)
+      ((n0 :: nt).map (fun y => Stmt.alloc y (sh.eraseIdx d)) ++
+        Rw.unrollL x d (fun k => (n0 :: nt).getD (order.idxOf k) x) rest) :=
+  Stg.unroll_buffer_refW_partial x d sh order n0 nt rest henv hlen hnd hxn hg hnew
+
+theorem unroll_buffer_in_procedure_partial (d : Nat) (names : List Sym)
+    (path : Rw.Path) (nm : String) (args : List FnArg) (preds : List Expr)
+    (body body' : List Stmt)
+    (h : Rw.rewriteAt (Rw.unrollBufferChecked d names) path body = some body') :
+    EquivOn WellScoped (fun _ => False) (.mk nm args preds body) (.mk nm args preds body') :=
+  Stg.unroll_buffer_anywhere_partial d names path nm args preds body body' h
+
+theorem unroll_buffer_stride_unsound :
+    ¬ BlockRefW Stg.UnrollEx.s3Before Stg.UnrollEx.s3After :=
+  Stg.UnrollEx.unroll_buffer_stride_unsound
 
 end Exo.C01S
